@@ -506,11 +506,46 @@ Definition judge_C17 (cfg : config) : judge_t := fun m o ob pr =>
   | _ => (None, [], [])
   end.
 
+(* ------------------------------------------------------------------ C12 (flows): an accepted request is covered by the
+   registration of the client it was made for, under the configured strategies *)
+Definition judge_C12 (cfg : config) : judge_t := fun m o ob pr =>
+  match request_of o with
+  | Some (c, sc, au) =>
+      if String.eqb (o_err ob) "" then
+        match nth_error (m_clients m) c with
+        | Some cl =>
+            if negb (scopes_ok cfg cl sc) then (Some "request_accepted_with_a_scope_the_registration_does_not_cover", [], [])
+            else if negb (aud_ok cfg (cl_aud cl) au) then (Some "request_accepted_with_an_audience_the_registration_does_not_cover", [], [])
+            else (None, [], [])
+        | None => (Some "request_accepted_for_an_unregistered_client", [], [])
+        end
+      else (None, [], [])
+  | None =>
+      match o with
+      | ORefresh (Some a) tok _ =>
+          match cred m tok with
+          | Some (i, c) =>
+              if String.eqb (o_err ob) "" then
+                match nth_error (m_clients m) a with
+                | Some cl =>
+                    if negb (scopes_ok cfg cl (ci_scopes c)) then (Some "refresh_honoured_although_client_lost_a_granted_scope", [], [])
+                    else if negb (list_eqb (o_scopes ob) (ci_scopes c)) then (Some "refresh_changed_the_granted_scopes", [], [])
+                    else (None, [], [])
+                | None => (None, [], [])
+                end
+              else (None, [], [])
+          | None => (None, [], [])
+          end
+      | _ => (None, [], [])
+      end
+  end.
+
 (* ------------------------------------------------------------------ checks *)
 Definition check_with (mon : hcase -> option string) (c : hcase) : verdict := V (hist_corr c) (mon c).
 
 Definition check_C01 := check_with (monitor judge_C01).
 Definition check_C02 := check_with (fun c => first_some (monitor judge_C02 c) (payload_monitor c)).
+Definition check_C12H := check_with (fun c => first_some (monitor (judge_C12 (case_cfg c)) c) (payload_monitor c)).
 Definition check_C03 := check_with (fun c => monitor (judge_C03 (case_cfg c)) c).
 Definition check_C04 := check_with (monitor judge_C04).
 Definition check_C05 := check_with (fun c => first_some (monitor (judge_C05 (case_cfg c)) c) (payload_monitor c)).
